@@ -9,7 +9,7 @@ Import ListNotations.
 Definition wf_rgsb (rgs : list rgroup) : bool :=
   forallb (fun g : rgroup => nodup_p (map fst g) && forallb (fun e => no_nl (fst e)) g) rgs.
 Definition wf_opb (o : op) : bool :=
-  match o with OWrite r | OAppend r | OOverwrite r | OWriteRgs r _ _ => wf_rgsb r | ORemove _ _ => true end.
+  match o with OWrite _ r | OAppend r | OOverwrite r | OWriteRgs r _ _ => wf_rgsb r | ORemove _ _ => true end.
 
 Lemma nodup_p_sound l : nodup_p l = true -> NoDup l.
 Proof.
@@ -25,57 +25,51 @@ Proof.
   destruct o; cbn; auto.
 Qed.
 
-(* what the plain model refuses (see notes/C09.md: the last two are the open finding C09-emptied-then-append) *)
-Definition is_nil {A} (l : list A) : bool := match l with [] => true | _ => false end.
-Definition refused_spec (a : sstate) (o : op) : bool :=
-  match o with
-  | OWrite _ => negb (is_nil a)
-  | OAppend rgs | OWriteRgs rgs _ _ => is_nil a && partitioned rgs
-  | OOverwrite rgs => negb (partitioned rgs) || is_nil a
-  | ORemove _ _ => false
+(* The plain model with the dataset's partitioning flag (None = no dataset yet): what is refused.
+   A write where a dataset exists; append / write_row_groups with another partitioning than the dataset's, or without a dataset;
+   overwrite of anything but a partitioned dataset; removal without a dataset. *)
+Definition pstate := (option bool * sstate)%type.
+Definition refused_spec (ps : pstate) (o : op) : bool :=
+  match o, fst ps with
+  | OWrite _ _, pt => match pt with None => false | Some _ => true end
+  | (OAppend rgs | OWriteRgs rgs _ _), Some b => negb (Bool.eqb b (partitioned rgs))
+  | (OAppend _ | OWriteRgs _ _ _), None => true
+  | OOverwrite rgs, pt => negb (partitioned rgs && match pt with Some true => true | _ => false end)
+  | ORemove _ _, pt => match pt with None => true | Some _ => false end
   end.
-Definition spec_step' (a : sstate) (o : op) : sstate :=
-  if refused_spec a o then a else match spec_step a o with Some a' => a' | None => a end.
-Definition spec_run (ops : list op) (a : sstate) : sstate := fold_left spec_step' ops a.
-
-Lemma inv_dir_nil s : inv s -> st_sum s = [] -> st_dir s = [].
-Proof.
-  intros [_ [B _]] Es. destruct (st_dir s) as [|[p v] r] eqn:Ed; [reflexivity|]. exfalso.
-  assert (H : lookup p ((p, v) :: r) <> None) by (cbn; rewrite bytes_eqb_refl; discriminate).
-  specialize (B p H). now rewrite Es in B.
-Qed.
-
-Lemma abs_nil s : is_nil (abs s) = is_nil (st_sum s).
-Proof. unfold abs. now destruct (st_sum s). Qed.
+Definition spec_step' (ps : pstate) (o : op) : pstate :=
+  if refused_spec ps o then ps
+  else (part_after (fst ps) o, match spec_step (snd ps) o with Some a' => a' | None => snd ps end).
+Definition spec_run (ops : list op) (ps : pstate) : pstate := fold_left spec_step' ops ps.
+Definition pabs (s : state) : pstate := (st_part s, abs s).
 
 Section Hist.
   Variable sortp : state -> option state.
-  Hypothesis sortp_ok : forall s, inv s -> exists s', sortp s = Some s' /\ inv s' /\ abs s' = abs s.
+  Hypothesis sortp_ok : forall s, inv s -> exists s', sortp s = Some s' /\ inv s' /\ abs s' = abs s /\ st_part s' = st_part s.
 
-  Lemma step'_sim s o : inv s -> wf_op o -> inv (step' sortp s o) /\ abs (step' sortp s o) = spec_step' (abs s) o.
+  Lemma step'_sim s o : inv s -> wf_op o -> inv (step' sortp s o) /\ pabs (step' sortp s o) = spec_step' (pabs s) o.
   Proof.
-    intros I W. unfold step', spec_step'. destruct (step sortp s o) as [s'|] eqn:E.
-    - split; [exact (step_inv sortp sortp_ok s o s' I W E)|].
-      rewrite (step_refines sortp sortp_ok s o s' I W E).
-      replace (refused_spec (abs s) o) with false; [reflexivity|]. symmetry.
-      destruct o as [rgs|rgs|rgs|sel sp|rgs k sp]; cbn [refused_spec step] in *; rewrite ?abs_nil.
-      + destruct (st_dir s); [|discriminate]. destruct (st_sum s); [reflexivity | discriminate].
-      + unfold cats_known in E. destruct (st_sum s); [|reflexivity]. cbn [is_nil andb]. destruct (partitioned rgs); [discriminate | reflexivity].
-      + destruct (partitioned rgs); [|discriminate]. destruct (st_sum s); [discriminate | reflexivity].
-      + reflexivity.
-      + unfold cats_known in E. destruct (st_sum s); [|reflexivity]. cbn [is_nil andb]. destruct (partitioned rgs); [discriminate | reflexivity].
+    intros I W. unfold step', spec_step', pabs. cbn [fst snd]. destruct (step sortp s o) as [s'|] eqn:E.
+    - destruct (step_all sortp sortp_ok s o s' I W E) as [I' [R P]]. split; [exact I'|]. rewrite R, P.
+      replace (refused_spec (st_part s, abs s) o) with false; [reflexivity|]. symmetry.
+      destruct o as [sch rgs|rgs|rgs|sel sp|rgs k sp]; cbn [refused_spec step fst] in *.
+      + destruct (st_part s); [discriminate | reflexivity].
+      + unfold cats_known in E. destruct (st_part s) as [b|]; [|discriminate]. destruct (Bool.eqb b (partitioned rgs)); [reflexivity | discriminate].
+      + destruct (partitioned rgs); [|discriminate]. destruct (st_part s) as [[|]|]; try discriminate. reflexivity.
+      + destruct (st_part s); [reflexivity | discriminate].
+      + unfold cats_known in E. destruct (st_part s) as [b|]; [|discriminate]. destruct (Bool.eqb b (partitioned rgs)); [reflexivity | discriminate].
     - split; [exact I|]. pose proof (step_refused sortp sortp_ok s o I W E) as R.
-      replace (refused_spec (abs s) o) with true; [reflexivity|]. symmetry.
-      destruct o as [rgs|rgs|rgs|sel sp|rgs k sp]; cbn [refused_spec]; rewrite ?abs_nil.
-      + destruct (st_sum s) eqn:Es; [|reflexivity]. exfalso. destruct R as [R|R]; [apply R; now apply inv_dir_nil | now apply R].
-      + unfold cats_known in R. destruct (st_sum s); [|discriminate]. cbn [is_nil andb]. now apply negb_false_iff in R.
-      + destruct R as [R|R]; [now rewrite R | rewrite R; apply orb_true_r].
-      + contradiction.
-      + unfold cats_known in R. destruct (st_sum s); [|discriminate]. cbn [is_nil andb]. now apply negb_false_iff in R.
+      replace (refused_spec (st_part s, abs s) o) with true; [reflexivity|]. symmetry.
+      destruct o as [sch rgs|rgs|rgs|sel sp|rgs k sp]; cbn [refused_spec fst].
+      + destruct (st_part s); [reflexivity | congruence].
+      + unfold cats_known in R. destruct (st_part s) as [b|]; [|reflexivity]. now rewrite R.
+      + destruct R as [R|R]; [now rewrite R|]. destruct (st_part s) as [[|]|]; try congruence; now rewrite andb_false_r.
+      + now rewrite R.
+      + unfold cats_known in R. destruct (st_part s) as [b|]; [|reflexivity]. now rewrite R.
   Qed.
 
   Theorem run_sim ops : forall s, inv s -> Forall wf_op ops ->
-    inv (run sortp ops s) /\ abs (run sortp ops s) = spec_run ops (abs s).
+    inv (run sortp ops s) /\ pabs (run sortp ops s) = spec_run ops (pabs s).
   Proof.
     induction ops as [|o ops IH]; intros s I W; [now split|]. inversion W; subst. cbn [run spec_run fold_left].
     destruct (step'_sim s o I H1) as [I' A']. destruct (IH _ I' H2) as [I'' A'']. split; [exact I''|].
@@ -86,15 +80,16 @@ End Hist.
 Lemma read_abs s : inv s -> read s = map (fun g => (fst g, Some (snd g))) (abs s).
 Proof.
   intros [A _]. unfold read, abs. rewrite map_map. apply map_ext_in. intros e He. cbn [fst snd]. f_equal.
-  unfold read_entry. rewrite (A e He). now rewrite bytes_eqb_refl.
+  unfold read_entry. rewrite (A e He). now rewrite N.eqb_refl, bytes_eqb_refl.
 Qed.
 
 Theorem history_ok ops : Forall wf_op ops ->
   let s := run sort_pnames_fixed ops empty in
-  inv s /\ read s = map (fun g => (fst g, Some (snd g))) (spec_run ops []).
+  inv s /\ read s = map (fun g => (fst g, Some (snd g))) (snd (spec_run ops (None, []))).
 Proof.
   intros W s. destruct (run_sim sort_pnames_fixed sort_pnames_fixed_ok ops empty inv_empty W) as [I A].
-  split; [exact I|]. subst s. rewrite (read_abs _ I), A. reflexivity.
+  split; [exact I|]. subst s. rewrite (read_abs _ I). change (abs (run sort_pnames_fixed ops empty)) with (snd (pabs (run sort_pnames_fixed ops empty))).
+  now rewrite A.
 Qed.
 
 Lemma in_lookup_some (d : fs) p v : In (p, v) d -> lookup p d <> None.
@@ -108,7 +103,7 @@ Lemma inv_check s : inv s -> check_inv s = true.
 Proof.
   intros [A [B [Cn [D _]]]]. unfold check_inv. rewrite !andb_true_iff. repeat split.
   - apply forallb_forall. intros e He.
-    match goal with |- match ?x with _ => _ end = _ => replace x with (Some (snd e)) by (symmetry; exact (A e He)) end.
+    match goal with |- match ?x with _ => _ end = _ => replace x with (Some (st_sch s :: snd e)) by (symmetry; exact (A e He)) end.
     apply bytes_eqb_refl.
   - apply forallb_forall. intros [p v] Hf. apply mem_p_spec. apply B. cbn [fst].
     now apply (in_lookup_some _ p v).
